@@ -433,6 +433,36 @@ Fixpoint exec_trace (c : cfg) (w : world) (evs : list event) : list (list val) :
   | e :: t => let w' := react c w e in skipn (length (w_out w)) (w_out w') :: exec_trace c w' t
   end.
 
+(* No buffer at all: scatter pushes every element through the nodes at once (tasks are submitted at emit
+   time) and its arrivals join the gather.update coroutines already waiting - whether or not the producer
+   awaited its previous emits.  With an awaited producer nothing is waiting at emit time and this coincides
+   with [react] for c_pre = []. *)
+Definition deliver (c : cfg) (w : world) : world :=
+  let '(d, r) := (if c_ordered c then take_prefix else take_all) (w_fin w) (w_pend w) in
+  {| w_store := w_store w; w_fin := w_fin w; w_pre := w_pre w; w_post := w_post w; w_queue := w_queue w;
+     w_pend := r; w_arr := w_arr w; w_out := w_out w ++ map (resolve (fin_look (w_fin w))) d |}.
+
+Definition react_direct (c : cfg) (w : world) (e : event) : world :=
+  match e with
+  | EEmit x =>
+      let id := length (w_store w) in
+      let '(post', st', outs) := dpipe (c_post c) (w_post w) (w_store w ++ [TScat x]) (XFut id) in
+      deliver c {| w_store := st'; w_fin := (id, x) :: w_fin w; w_pre := w_pre w; w_post := post';
+                   w_queue := w_queue w; w_pend := w_pend w ++ outs; w_arr := w_arr w ++ outs;
+                   w_out := w_out w |}
+  | EDone k =>
+      deliver c {| w_store := w_store w; w_fin := complete (w_store w) (w_fin w) k; w_pre := w_pre w;
+                   w_post := w_post w; w_queue := w_queue w; w_pend := w_pend w; w_arr := w_arr w;
+                   w_out := w_out w |}
+  end.
+
+Fixpoint exec_trace_direct (c : cfg) (w : world) (evs : list event) : list (list val) :=
+  match evs with
+  | [] => []
+  | e :: t => let w' := react_direct c w e in
+              skipn (length (w_out w)) (w_out w') :: exec_trace_direct c w' t
+  end.
+
 (* the local pipeline that the segment replaces: same stages, the buffer being an identity on order *)
 Definition stages_of (c : cfg) (buffered : bool) : list stage :=
   c_pre c ++ (if buffered then [SLeaf LBuffer] else []) ++ c_post c.
